@@ -69,7 +69,7 @@ def body_roundtrip(case, ctx):
     X = H.klein_to_model(K, src)
     if src == "projective":
         X = X * case["scale"]
-    Xin = X.copy()                 # the caller's array: handed over as it is
+    Xin = gen.flavoured(X.copy())  # the caller's array (in one of several memory layouts)
     P = hyperbolic.Point(Xin, model=_alias(src, case["alias"]))
     ctx.check(P.shape == shape, "composite shape of constructed point", got=P.shape,
               want=shape)
@@ -163,7 +163,7 @@ def _build(K, src, scale=1.0):
     X = H.klein_to_model(K, src)
     if src == "projective":
         X = X * scale
-    return hyperbolic.Point(X.copy(), model=src)
+    return hyperbolic.Point(gen.flavoured(X.copy()), model=src)
 
 
 def dist_tol(KA, KB, d):
